@@ -405,3 +405,35 @@ def gen_schemalevels(repo):
             "def maxRep (path : List Nat) : Nat := (path.filter repTest).length\n"
             "def maxDef (path : List Nat) : Nat := (path.filter defTest).length\n"
             "end PqV.Gen.SchemaLevels\n")
+
+
+@register("PartNumbering")
+def gen_partnumbering(repo):
+    """writer.find_max_part: the number of the first new part file of an append, as an expression over the
+    set `pids` of part numbers referenced by the metadata; and which row-group list write_multi hands it."""
+    src = open(os.path.join(repo, "fastparquet", "writer.py")).read()
+    tree = ast.parse(src)
+    fn = find_func(tree, "find_max_part")
+    rets = [ast.unparse(n.value).replace(" ", "") for n in ast.walk(fn) if isinstance(n, ast.Return) and n.value is not None]
+    assigns = [ast.unparse(n).replace(" ", "") for n in ast.walk(fn) if isinstance(n, ast.Assign)]
+    if assigns != ["pids=part_ids(row_groups)"]:
+        raise Unsupported("find_max_part: expected the single assignment pids = part_ids(row_groups), found " + ";".join(assigns))
+    ifs = [n for n in ast.walk(fn) if isinstance(n, ast.If)]
+    if len(ifs) == 1 and ast.unparse(ifs[0].test) == "pids" and rets == ["max(pids)+1", "0"]:
+        rule = "maxPlusOne"
+    elif not ifs and len(rets) == 1:
+        rule = "other:" + rets[0]
+    else:
+        rule = "other:" + "|".join(rets)
+    wm = find_func(tree, "write_multi")
+    calls = [ast.unparse(n).replace(" ", "") for n in ast.walk(wm) if isinstance(n, ast.Call) and ast.unparse(n.func) == "find_max_part"]
+    arg = calls[0] if len(calls) == 1 else "other:" + "|".join(calls)
+    offs = [ast.unparse(n).replace(" ", "") for n in ast.walk(wm) if isinstance(n, ast.Assign) and ast.unparse(n.targets[0]) == "i_offset"]
+    return ("-- REGENERATED on every run by tools/translate_callsites.py from fastparquet/writer.py — do not edit\n"
+            "namespace PqV.Gen.PartNumbering\n"
+            f"/-- `find_max_part` (line {fn.lineno}): `maxPlusOne` = `max(pids) + 1 if pids else 0` -/\n"
+            f"def rule : String := \"{rule}\"\n"
+            "/-- how `write_multi` obtains the first new part number -/\n"
+            f"def offsetAssignments : List String := [{', '.join(chr(34) + o + chr(34) for o in offs)}]\n"
+            f"def call : String := \"{arg}\"\n"
+            "end PqV.Gen.PartNumbering\n")
